@@ -14,6 +14,8 @@ import Bee2V.C05.ModelGcd
 import Bee2V.C05.ModelPp
 import Bee2V.C05.ModelRed
 import Bee2V.C05.ModelEtc
+import Bee2V.C05.ModelPpMul
+import Bee2V.C05.ModelPpRed
 namespace Bee2V.C05.Drv
 open Bee2V.Proto Bee2V.C05 Bee2V.C05.Spec
 
@@ -624,6 +626,45 @@ def modelW (W : Nat) (f : String) (args : List String) : Option String :=
     let r := zzAlmostInvModV a m
     -- for gcd(a, mod) != 1 the header fixes b = 0 only (k is whatever the loop count was)
     some (b01 (n1 == n && b == r.1 && (k == r.2 || r.1 == 0)))
+  -- ModelPpMul (window multiplication by a word, Karatsuba 1..9 and above, table squaring; word lists)
+  | "ppMulW", [_, a, x] => do let a ← wl W a; let x ← nat x; some (pr (ppMulW W a x))
+  | "ppAddMulW", [_, b, a, x] => do let b ← wl W b; let a ← wl W a; let x ← nat x; some (pr (ppAddMulW W b a x))
+  | "ppMul", [_, a, b] => do let a ← wl W a; let b ← wl W b; some (hl W (ppMul W a b))
+  | "ppSqr", [a] => do let a ← wl W a; some (hl W (ppSqr W a))
+  -- ModelPpRed (reductions modulo trinomials / pentanomials / the belt polynomial; word lists)
+  | "ppRedTrinomial", [a, m, k] => do let a ← wl W a; let m ← nat m; let k ← nat k; some (hl W (ppRedTrinomial W a m k))
+  | "ppRedPentanomial", [a, m, k, l, l1] => do
+    let a ← wl W a; let m ← nat m; let k ← nat k; let l ← nat l; let l1 ← nat l1
+    some (hl W (ppRedPentanomial W a m k l l1))
+  | "ppRedBelt", [a] => do let a ← wl W a; some (hl W (ppRedBelt W a))
+  -- gf2 multiplication / squaring as gf2.c composes them: ppMul / ppSqr into a 2n-word product, then the
+  -- static reduction selected by gf2Create (Trinomial0 when (m - k) % W = 0, else Trinomial1; Pentanomial)
+  | "gf2", m :: k :: l :: l1 :: pat :: op :: rest => do
+    let m ← nat m; let k ← nat k; let l ← nat l; let l1 ← nat l1
+    if op != "mul" && op != "sqr" then none else
+    let okd :=
+      if k = 0 then false
+      else if l = 0 then l1 = 0 && !(m % 8 = 0 || k ≥ m || m - k < W)
+      else l1 != 0 && !(k ≥ m || l ≥ k || l1 ≥ l || m - k < W || k ≥ W)
+    if !okd then none else
+    let n := (m + W - 1) / W
+    let no := (m + 7) / 8
+    let f := if l = 0 then 2 ^ m + 2 ^ k + 1 else 2 ^ m + 2 ^ k + 2 ^ l + 2 ^ l1 + 1
+    let el (s : String) : Option (List Nat) := do
+      let o ← parseHex s
+      if o.length != no then none else
+      let v := leNat o
+      if (m % W = 0 ∨ v < f) ∧ v < 2 ^ (W * n) then some (toWords W n v) else none
+    let a ← rest.head?.bind el
+    let b ← if op == "sqr" then some a else
+      (if pat == "ab" || pat == "cab" then some a else (rest.drop 1).head?.bind el)
+    let prod := if op == "sqr" then ppSqr W a else ppMul W a b
+    let r :=
+      if l = 0 then
+        let p := Gf2Trinom.create W m k
+        if p.bk = 0 then gf2RedTrinomial0 W prod n p else gf2RedTrinomial1 W prod n p
+      else gf2RedPentanomial W prod n (Gf2Pentanom.create W m k l l1)
+    some (join [toString n, toString no, hl W r, ho no (val W r)])
   -- ModelPp (binary algorithms over GF(2)[x], value level)
   | "ppGCD", [a, b] => do let (n, a) ← pw W a; let (m, b) ← pw W b; some (hw W (min n m) (ppGCDV a b))
   | "ppExGCD?", [a, b, d, da, db] => do
